@@ -1,6 +1,7 @@
 import MosnVerif.Model.Json
 import MosnVerif.Model.GoDuration
 import MosnVerif.Gen.ConfigGraph
+import MosnVerif.Gen.ConfigPairs
 /-!
 # Field-table-driven model of the JSON codec of pkg/config/v2 (C19)
 
@@ -34,6 +35,8 @@ inductive Shape where
   | slice (e : Shape)
   | map (e : Shape)
   | ptr (e : Shape)
+  | metaS (i : Nat) (fs : Fields)   -- a metadata wrapper over the config with field table `fs`, metadata member at position `i`
+  | boxed (e : Shape)               -- a struct whose (Un)MarshalJSON delegate to its only field, of shape `e`
 inductive Fields where
   | nil
   | cons (key : String) (omitempty : Bool) (sh : Shape) (rest : Fields)
@@ -65,6 +68,8 @@ def Shape.beq : Shape → Shape → Bool
   | .slice a, .slice b => Shape.beq a b
   | .map a, .map b => Shape.beq a b
   | .ptr a, .ptr b => Shape.beq a b
+  | .metaS i a, .metaS j b => i == j && Fields.beq a b
+  | .boxed a, .boxed b => Shape.beq a b
   | _, _ => false
 def Fields.beq : Fields → Fields → Bool
   | .nil, .nil => true
@@ -115,6 +120,8 @@ def zero : Shape → CVal
   | .slice _ => .slice true []
   | .map _ => .map true []
   | .ptr _ => .ptr []
+  | .metaS _ fs => .struct (zeroF fs)
+  | .boxed e => .struct [zero e]
 def zeroF : Fields → List CVal
   | .nil => []
   | .cons _ _ sh r => zero sh :: zeroF r
@@ -139,6 +146,7 @@ def ptrElemOK : Shape → Bool
   | .num => true
   | .bool => true
   | .struct _ => true
+  | .metaS _ _ => true
   | _ => false
 
 /-! list helpers parameterised by the element function (kept outside the mutual blocks so that the recursion on
@@ -182,6 +190,58 @@ def isObjOrNull : Json → Bool
   | .obj _ => true
   | _ => false
 
+/-! ## metadata (`configToMetadata` / `metadataToConfig`, common.go) and positions in a field table -/
+
+/-- a Go map built from JSON members: the last member with a key wins -/
+def dedupLast : List (String × Json) → List (String × Json)
+  | [] => []
+  | (k, v) :: r => if r.any (fun m => m.1 == k) then dedupLast r else (k, v) :: dedupLast r
+
+/-- `configToMetadata`: string values only -/
+def toMeta (j : Json) : List (String × String) :=
+  match j with
+  | .obj ms => (dedupLast ms).filterMap (fun m => match m.2 with | .str s => some (m.1, s) | _ => none)
+  | _ => []
+
+/-- `metadataToConfig`: nil for an empty map -/
+def fromMeta (md : List (String × String)) : CVal :=
+  if md.isEmpty then .ptr []
+  else .ptr [.struct [.struct [.hole (.obj (md.map (fun m => (m.1, Json.str m.2))))]]]
+
+/-- `*MetadataConfig{filter_metadata: LbMeta{"mosn.lb": map[string]interface{}}}` -/
+def metaShape : Shape :=
+  .ptr (.struct (.cons "filter_metadata" false (.struct (.cons "mosn.lb" false .hmap .nil)) .nil))
+
+/-- `configToMetadata` of a `*MetadataConfig` value -/
+def mdOf (v : Option CVal) : List (String × String) :=
+  match v with
+  | some (.ptr [.struct [.struct [.hole j]]]) => toMeta j
+  | _ => []
+
+/-- what `MarshalJSON` of a metadata wrapper encodes: member `i` rebuilt from the derived `api.Metadata` -/
+def metaFix (i : Nat) (vs : List CVal) : List CVal := vs.set i (fromMeta (mdOf vs[i]?))
+
+def Fields.length : Fields → Nat
+  | .nil => 0
+  | .cons _ _ _ r => r.length + 1
+
+/-- (key, omitempty, shape) of the field at position `i` -/
+def Fields.get? : Fields → Nat → Option (String × Bool × Shape)
+  | .nil, _ => none
+  | .cons k o sh _, 0 => some (k, o, sh)
+  | .cons _ _ _ r, i + 1 => r.get? i
+
+/-- position of the field with JSON key `k` -/
+def Fields.indexOf : Fields → String → Nat
+  | .nil, _ => 0
+  | .cons k' _ _ r, k => if k' == k then 0 else r.indexOf k + 1
+
+/-- field `i` is an `omitempty` member of type `*MetadataConfig` -/
+def metaAt (fs : Fields) (i : Nat) : Bool :=
+  match fs.get? i with
+  | some (_, o, sh) => o && sh == metaShape
+  | none => false
+
 mutual
 def wt : Shape → CVal → Bool
   | .str, .str _ => true
@@ -194,6 +254,8 @@ def wt : Shape → CVal → Bool
   | .slice e, .slice n vs => (!n || vs.isEmpty) && wtL (wt e) vs
   | .map e, .map n kvs => (!n || kvs.isEmpty) && wtM (wt e) kvs
   | .ptr e, .ptr vs => ptrElemOK e && vs.length ≤ 1 && wtL (wt e) vs
+  | .metaS i fs, .struct vs => metaAt fs i && wtF fs vs
+  | .boxed e, .struct vs => (match vs with | [v] => wt e v | _ => false)
   | _, _ => false
 def wtF : Fields → List CVal → Bool
   | .nil, [] => true
@@ -214,6 +276,8 @@ def encode : Shape → CVal → Json
   | .slice e, .slice n vs => if n then .null else .arr (encodeL (encode e) vs)
   | .map e, .map n kvs => if n then .null else .obj (encodeM (encode e) kvs)
   | .ptr e, .ptr vs => (match vs with | [] => .null | v :: _ => encode e v)
+  | .metaS i fs, .struct vs => .obj (encodeF fs (metaFix i vs))
+  | .boxed e, .struct vs => (match vs with | [v] => encode e v | _ => .null)
   | _, _ => .null
 def encodeF : Fields → List CVal → List (String × Json)
   | .cons k o sh r, v :: vs => if o && isEmpty v then encodeF r vs else (k, encode sh v) :: encodeF r vs
@@ -240,6 +304,9 @@ def decode : Shape → Json → Option CVal
   | .map _, .null => some (.map true [])
   | .ptr _, .null => some (.ptr [])
   | .ptr e, j => (decode e j).map (fun v => .ptr [v])
+  | .metaS _ fs, .obj ms => (decodeF fs ms).map .struct
+  | .metaS _ fs, .null => some (.struct (zeroF fs))
+  | .boxed e, j => (decode e j).map (fun v => .struct [v])
   | _, _ => none
 def decodeF : Fields → List (String × Json) → Option (List CVal)
   | .nil, _ => some []
@@ -256,6 +323,8 @@ def norm : Shape → CVal → CVal
   | .slice e, .slice n vs => .slice n (normL (norm e) vs)
   | .map e, .map n kvs => .map n (normM (norm e) kvs)
   | .ptr e, .ptr vs => .ptr (normL (norm e) vs)
+  | .metaS i fs, .struct vs => .struct (normF fs (metaFix i vs))
+  | .boxed e, .struct vs => .struct (normL (norm e) vs)
   | _, v => v
 def normF : Fields → List CVal → List CVal
   | .cons _ o sh r, v :: vs => (if o && isEmpty v then zero sh else norm sh v) :: normF r vs
@@ -275,6 +344,8 @@ def keysOK : Shape → Bool
   | .slice e => keysOK e
   | .map e => keysOK e
   | .ptr e => ptrElemOK e && keysOK e
+  | .metaS i fs => metaAt fs i && keysOKF fs
+  | .boxed e => keysOK e
   | _ => true
 def keysOKF : Fields → Bool
   | .nil => true
@@ -285,8 +356,15 @@ end
 
 def jsonKey (f : Field) : String := if f.json == "" then f.name else f.json
 
+/-- the regenerated classification of the custom pair of struct `s` -/
+def kindOf (s : String) : MosnVerif.Model.PairTypes.CustomKind :=
+  match MosnVerif.Gen.ConfigPairs.customKinds.find? (fun e => e.1 == s) with
+  | some e => e.2
+  | none => .other
+
 mutual
-/-- shape of a Go type of the graph; `none` = not generic (custom marshaler, embedded field, external type) or out of fuel -/
+/-- shape of a Go type of the graph; `none` = not expandable (a custom pair of kind `other`, an embedded field outside a
+recognised pair, an opaque external type) or out of fuel -/
 def expandTy (g : Graph) : Nat → GoTy → Option Shape
   | 0, _ => none
   | _ + 1, .str => some .str
@@ -296,7 +374,18 @@ def expandTy (g : Graph) : Nat → GoTy → Option Shape
   | _ + 1, .ext n => if n == "api.DurationConfig" then some .dur else none
   | n + 1, .named s =>
     match g.find s with
-    | some d => if d.customMarshal || d.customUnmarshal then none else (expandFs g n d.fields).map .struct
+    | some d =>
+      if d.customMarshal || d.customUnmarshal then
+        -- a custom pair whose two method bodies were recognised (regenerated `Gen.ConfigPairs.customKinds`)
+        match kindOf s with
+        | .mirror cfg => (match g.find cfg with | some dc => (expandFs g n dc.fields).map .struct | none => none)
+        | .metadata cfg key =>
+          (match g.find cfg with
+           | some dc => (expandFs g n dc.fields).map (fun fs => .metaS (fs.indexOf key) fs)
+           | none => none)
+        | .boxed f => (match d.field f with | some fd => (expandTy g n fd.ty).map .boxed | none => none)
+        | .other => none
+      else (expandFs g n d.fields).map .struct
     | none => none
   | n + 1, .slice e => (expandTy g n e).map .slice
   | n + 1, .map e => (expandTy g n e).map .map
@@ -386,22 +475,6 @@ def hostShape : Shape :=
   .struct (.cons "address" true .str (.cons "hostname" true .str (.cons "weight" true .num
     (.cons "metadata" true (.ptr (.struct (.cons "filter_metadata" false (.struct (.cons "mosn.lb" false .hmap .nil)) .nil)))
     (.cons "tls_disable" true .bool .nil)))))
-
-/-- a Go map built from JSON members: the last member with a key wins -/
-def dedupLast : List (String × Json) → List (String × Json)
-  | [] => []
-  | (k, v) :: r => if r.any (fun m => m.1 == k) then dedupLast r else (k, v) :: dedupLast r
-
-/-- `configToMetadata`: string values only -/
-def toMeta (j : Json) : List (String × String) :=
-  match j with
-  | .obj ms => (dedupLast ms).filterMap (fun m => match m.2 with | .str s => some (m.1, s) | _ => none)
-  | _ => []
-
-/-- `metadataToConfig`: nil for an empty map -/
-def fromMeta (md : List (String × String)) : CVal :=
-  if md.isEmpty then .ptr []
-  else .ptr [.struct [.struct [.hole (.obj (md.map (fun m => (m.1, Json.str m.2))))]]]
 
 structure HostV where
   cfg : CVal
